@@ -9,7 +9,8 @@ RULE = ("(a) PARSETOKS: every token sequence of length <= 2 (quick) / 3 (thoroug
         "(every documented statement and expression form, nested), each truncated at every token position and with single "
         "and double token deletions, duplications, swaps and insertions. The implementation must answer with a statement "
         "list or an error value (never a panic, abort or hang); valid programs must be accepted; the answer (AST on "
-        "success, error class otherwise) is compared with the Lean model. Non-trivial: the sequence is not accepted.")
+        "success, error class otherwise) is compared with the Lean model. Non-trivial: the sequence is not accepted."
+        ' Number-neighbourhood sources of C10 as PARSE requests; import graphs with the root file on disk.')
 ASSUMPTIONS = ["token lists end with the end-of-tokens marker, as every tokenizer output does",
                "native stack depth is not modelled (KNOWN-FINDING C12-native-stack is probed on every run)"]
 CODES = "nsiIELVF+-*/%@;m#,(){}[]=<>qxlg&|!tfBCRPMp"
@@ -141,6 +142,12 @@ def cases(rng, tier, stats):
     lines = ["PARSE " + C.hx(b) for b in bad] + ["PARSE " + C.hx('দেখাও "আগে";\n' + b + '\nদেখাও "পরে";') for b in bad]
     out.append(C.Case("malformed-statements", lines, C.compare_status_class, total_oracle, info={"count": len(lines)}))
     stats["malformed_statements"] = len(lines)
+    # number literals with foreign digits / numeric signs glued on (family of C10): statement list or error value, never a panic
+    from props.C10 import number_neighbourhood_sources
+    nn = number_neighbourhood_sources()
+    for k_ in range(0, len(nn), 60):
+        out.append(C.Case("number-neighbourhood", ["PARSE " + C.hx(b) for b in nn[k_:k_ + 60]], C.compare_status_class, total_oracle, info={"first": nn[k_]}))
+    stats["number_neighbourhood"] = len(nn)
     # the parser loads modules: import graphs with cycles that do NOT pass through the root, long chains into a cycle, diamonds and
     # repeated imports — parsing must end with a statement list or an error value (no stack overflow, no hang); files on disk, oracle
     # of the C15 family (graph predicate)
